@@ -113,12 +113,18 @@ type fieldRow struct {
 	marshalTo       []string
 	unmarshalFrom   []string
 	clone           string
+	// conditions (other than "the field itself is non-empty") under which the most favourable
+	// write happens; [] = carried unconditionally
+	marshalGuard   []string
+	unmarshalGuard []string
+	cloneGuard     []string
 }
 
 func genC15(g *Gen) error {
 	g.Header(metaDir+"{data,database,retentionpolicy,measurement,shardinfo,indexinfo,nodeinfo,userinfo,stream,continuous_query,downsample_policy,migrate_event_info,replication,subscription}.go", "app/ts-meta/meta/store_fsm.go")
 	g.GenNS()
 	var rows []fieldRow
+	benign := map[string]bool{} // harmless self-guards seen (pinned in OG/C15/Facts.lean)
 	declared := map[string]bool{}
 	for _, sc := range c15Structs() {
 		declared[sc.name] = true
@@ -127,14 +133,37 @@ func genC15(g *Gen) error {
 			return err
 		}
 		mar := map[string]map[string]bool{}
+		marG, unmG, clG := guardCollector{}, guardCollector{}, guardCollector{}
+		// the struct's own receiver / protobuf parameter: a nil test of those is about the struct
+		// as a whole (not for structs handled inside a parent's function: explicit recv / lit)
+		selfNames := map[string]bool{}
+		for _, frs := range [][]fnRef{sc.marshal, sc.unmarshal, sc.clone} {
+			for _, fr := range frs {
+				if fr.recv != "" || fr.lit != "" || fr.ctx != "" {
+					continue
+				}
+				if fd, err := g.Func(fr.file, fr.fn); err == nil {
+					if r := funcRecv(fd); r != "" {
+						selfNames["<self:"+r+">"] = true
+					}
+					for _, p := range fd.Type.Params.List {
+						if strings.Contains(g.Src(p.Type), "roto") {
+							for _, n := range p.Names {
+								selfNames["<self:"+n.Name+">"] = true
+							}
+						}
+					}
+				}
+			}
+		}
 		for _, fr := range sc.marshal {
-			if err := marshalFlow(g, fr, mar); err != nil {
+			if err := marshalFlow(g, fr, mar, marG); err != nil {
 				return err
 			}
 		}
 		unm := map[string]map[string]bool{}
 		for _, fr := range sc.unmarshal {
-			if err := unmarshalFlow(g, fr, sc.name, fields, unm); err != nil {
+			if err := unmarshalFlow(g, fr, sc.name, fields, unm, unmG); err != nil {
 				return err
 			}
 		}
@@ -145,12 +174,32 @@ func genC15(g *Gen) error {
 			}
 		}
 		for _, fr := range sc.clone {
-			if err := cloneFlow(g, fr, fields, cl); err != nil {
+			if err := cloneFlow(g, fr, fields, cl, clG); err != nil {
 				return err
 			}
 		}
 		for _, f := range fields {
-			rows = append(rows, fieldRow{ty: sc.name, field: f[0], kind: f[1], marshalTo: setList(mar[f[0]]), unmarshalFrom: setList(unm[f[0]]), clone: cl[f[0]]})
+			name := f[0]
+			row := fieldRow{ty: sc.name, field: name, kind: f[1], marshalTo: setList(mar[name]), unmarshalFrom: setList(unm[name]), clone: cl[name]}
+			ownField := func(m string) bool { return m == name || selfNames[m] }
+			ownPb := func(m string) bool { return unm[name][m] || selfNames[m] }
+			var ok []string
+			row.marshalGuard, ok = marG.residual(name, ownField)
+			for _, t := range ok {
+				benign[fmt.Sprintf("%s.%s marshal: %s", sc.name, name, t)] = true
+			}
+			row.unmarshalGuard, ok = unmG.residual(name, ownPb)
+			for _, t := range ok {
+				benign[fmt.Sprintf("%s.%s unmarshal: %s", sc.name, name, t)] = true
+			}
+			if cl[name] != "copy" && cl[name] != "byValue" {
+				// a guarded deep copy on top of `other := *x` still leaves the shallow copy
+				row.cloneGuard, ok = clG.residual(name, ownField)
+				for _, t := range ok {
+					benign[fmt.Sprintf("%s.%s clone: %s", sc.name, name, t)] = true
+				}
+			}
+			rows = append(rows, row)
 		}
 	}
 	g.P("structure FieldFact where")
@@ -160,6 +209,9 @@ func genC15(g *Gen) error {
 	g.P("  marshalTo : List String")
 	g.P("  unmarshalFrom : List String")
 	g.P("  clone : String")
+	g.P("  marshalGuard : List String")
+	g.P("  unmarshalGuard : List String")
+	g.P("  cloneGuard : List String")
 	g.P("deriving DecidableEq, Repr\n")
 	g.P("def fieldTable : List FieldFact := [")
 	for i, r := range rows {
@@ -167,9 +219,13 @@ func genC15(g *Gen) error {
 		if i == len(rows)-1 {
 			sep = ""
 		}
-		g.P("  ⟨%s, %s, %s, %s, %s, %s⟩%s", leanStr(r.ty), leanStr(r.field), leanStr(r.kind), leanStrList(r.marshalTo), leanStrList(r.unmarshalFrom), leanStr(r.clone), sep)
+		g.P("  ⟨%s, %s, %s, %s, %s, %s, %s, %s, %s⟩%s", leanStr(r.ty), leanStr(r.field), leanStr(r.kind), leanStrList(r.marshalTo), leanStrList(r.unmarshalFrom), leanStr(r.clone),
+			leanStrList(r.marshalGuard), leanStrList(r.unmarshalGuard), leanStrList(r.cloneGuard), sep)
 	}
 	g.P("]\n")
+	// the guards that were classified as harmless: a test of the carried field itself (or of the
+	// protobuf field it is rebuilt from) for being non-empty
+	g.StrList("selfGuards", setList(benign))
 
 	// struct types of the package that are referenced by a field of a listed struct but are
 	// not listed themselves (must stay empty apart from the recorded exemptions)
@@ -411,7 +467,7 @@ func funcRecv(fd *ast.FuncDecl) string {
 
 // ---- marshal: which pb fields does each struct field flow into -------------------------
 
-func marshalFlow(g *Gen, fr fnRef, out map[string]map[string]bool) error {
+func marshalFlow(g *Gen, fr fnRef, out map[string]map[string]bool, guards guardCollector) error {
 	fd, err := g.Func(fr.file, fr.fn)
 	if err != nil {
 		return err
@@ -435,6 +491,8 @@ func marshalFlow(g *Gen, fr fnRef, out map[string]map[string]bool) error {
 		return nil
 	}
 	taint := map[string]map[string]bool{}
+	var gstack []guardRec // enclosing conditions of the statement being walked
+	mentions := func(e ast.Node) []string { return setList(recvFieldsIn(g, e, recv, taint)) }
 	var walk func(stmts []ast.Stmt, ctx map[string]bool)
 	record := func(fields map[string]bool, ctx map[string]bool, key string) {
 		if key == "" {
@@ -442,6 +500,7 @@ func marshalFlow(g *Gen, fr fnRef, out map[string]map[string]bool) error {
 		}
 		for f := range fields {
 			add(out, f, key)
+			guards.note(f, gstack)
 		}
 		for f := range ctx {
 			add(out, f, key)
@@ -489,6 +548,7 @@ func marshalFlow(g *Gen, fr fnRef, out map[string]map[string]bool) error {
 		}
 	}
 	walk = func(stmts []ast.Stmt, ctx map[string]bool) {
+		blockDepth := -1 // >= 0: guards pushed by an early return, popped at the end of this block
 		for _, s := range stmts {
 			switch x := s.(type) {
 			case *ast.AssignStmt:
@@ -548,14 +608,23 @@ func marshalFlow(g *Gen, fr fnRef, out map[string]map[string]bool) error {
 				if x.Init != nil {
 					walk([]ast.Stmt{x.Init}, ctx)
 				}
+				depth := len(gstack)
+				gstack = append(gstack, condGuards(g, x.Cond, false, mentions)...)
 				walk(x.Body.List, c2)
+				gstack = gstack[:depth]
 				if x.Else != nil {
+					gstack = append(gstack, condGuards(g, x.Cond, true, mentions)...)
 					switch e := x.Else.(type) {
 					case *ast.BlockStmt:
 						walk(e.List, c2)
 					case *ast.IfStmt:
 						walk([]ast.Stmt{e}, c2)
 					}
+					gstack = gstack[:depth]
+				} else if endsInReturn(x.Body) {
+					// `if c { return }`: what follows in this block runs under !c
+					gstack = append(gstack, condGuards(g, x.Cond, true, mentions)...)
+					blockDepth = depth
 				}
 			case *ast.RangeStmt:
 				c2 := copySet(ctx)
@@ -569,17 +638,190 @@ func marshalFlow(g *Gen, fr fnRef, out map[string]map[string]bool) error {
 				if id, ok := x.Value.(*ast.Ident); ok && id.Name != "_" {
 					taint[id.Name] = copySet(src)
 				}
+				depth := len(gstack)
+				gstack = append(gstack, guardRec{text: "range " + g.Src(x.X), mentions: setList(src), zero: true})
 				walk(x.Body.List, c2)
+				gstack = gstack[:depth]
 			case *ast.ForStmt:
+				depth := len(gstack)
+				if x.Cond != nil {
+					gstack = append(gstack, guardRec{text: "for " + g.Src(x.Cond), mentions: mentions(x.Cond), zero: true})
+				}
 				walk(x.Body.List, ctx)
+				gstack = gstack[:depth]
 			case *ast.BlockStmt:
 				walk(x.List, ctx)
 			case *ast.DeclStmt, *ast.IncDecStmt, *ast.DeferStmt:
 			}
 		}
+		if blockDepth >= 0 {
+			gstack = gstack[:blockDepth]
+		}
 	}
 	walk(fd.Body.List, map[string]bool{})
 	return nil
+}
+
+// ---- guards: the enclosing conditions of a write ------------------------------------------
+
+// guardRec is one enclosing condition. `zero` = it only tests something for being non-zero
+// (`x != nil`, `len(x) > 0`, `x != ""`, `range x`, `i < len(x)`): if it mentions nothing but the
+// field being carried, skipping the write loses nothing (nil and empty are the same catalogue).
+type guardRec struct {
+	text     string
+	mentions []string
+	zero     bool
+}
+
+// guardCollector: per field, the guard chains of every place its value is written.
+type guardCollector map[string][][]guardRec
+
+func (gc guardCollector) note(field string, chain []guardRec) {
+	if gc == nil {
+		return
+	}
+	gc[field] = append(gc[field], append([]guardRec(nil), chain...))
+}
+
+// residual returns, for the most favourable write of the field, the guards that are *not*
+// harmless zero-tests of the field's own value (`own` tells whether a mentioned name belongs to
+// the field), and the harmless ones of that write.
+func (gc guardCollector) residual(field string, own func(name string) bool) (bad []string, benign []string) {
+	chains := gc[field]
+	if len(chains) == 0 {
+		return nil, nil
+	}
+	best := -1
+	var bestBad, bestBenign []string
+	for _, ch := range chains {
+		var b, ok []string
+		for _, gr := range ch {
+			harmless := gr.zero && len(gr.mentions) > 0
+			for _, m := range gr.mentions {
+				if !own(m) {
+					harmless = false
+				}
+			}
+			if harmless {
+				ok = append(ok, gr.text)
+			} else {
+				b = append(b, gr.text)
+			}
+		}
+		if best < 0 || len(b) < best {
+			best, bestBad, bestBenign = len(b), b, ok
+		}
+	}
+	return bestBad, bestBenign
+}
+
+// selfMention: `x != nil` / `x == nil` on a bare identifier - the struct (or the protobuf message
+// it is rebuilt from) as a whole is absent; reported as the pseudo field "<self:x>".
+func selfMention(e ast.Expr) []string {
+	for {
+		p, ok := e.(*ast.ParenExpr)
+		if !ok {
+			break
+		}
+		e = p.X
+	}
+	if b, ok := e.(*ast.BinaryExpr); ok && (b.Op == token.NEQ || b.Op == token.EQL) {
+		if id, ok := b.X.(*ast.Ident); ok {
+			if y, ok := b.Y.(*ast.Ident); ok && y.Name == "nil" {
+				return []string{"<self:" + id.Name + ">"}
+			}
+		}
+	}
+	return nil
+}
+
+func endsInReturn(b *ast.BlockStmt) bool {
+	if len(b.List) == 0 {
+		return false
+	}
+	_, ok := b.List[len(b.List)-1].(*ast.ReturnStmt)
+	return ok
+}
+
+// condGuards splits a condition into conjuncts (for the negated form: disjuncts) and classifies
+// each as a zero-test or not.
+func condGuards(g *Gen, cond ast.Expr, negated bool, mentions func(ast.Node) []string) []guardRec {
+	var out []guardRec
+	var split func(e ast.Expr)
+	split = func(e ast.Expr) {
+		if p, ok := e.(*ast.ParenExpr); ok {
+			split(p.X)
+			return
+		}
+		if b, ok := e.(*ast.BinaryExpr); ok && (!negated && b.Op == token.LAND || negated && b.Op == token.LOR) {
+			split(b.X)
+			split(b.Y)
+			return
+		}
+		text := g.Src(e)
+		if negated {
+			text = "!(" + text + ")"
+		}
+		ms := mentions(e)
+		if len(ms) == 0 {
+			ms = selfMention(e)
+		}
+		out = append(out, guardRec{text: text, mentions: ms, zero: isZeroTest(g, e, negated)})
+	}
+	split(cond)
+	return out
+}
+
+// isZeroTest: the condition (or its negation) holds exactly when one operand is not the zero
+// value of its type: `x != nil`, `x != ""`, `x != 0`, `len(x) > 0`, `len(x) != 0`, `0 < len(x)`.
+func isZeroTest(g *Gen, e ast.Expr, negated bool) bool {
+	for {
+		p, ok := e.(*ast.ParenExpr)
+		if !ok {
+			break
+		}
+		e = p.X
+	}
+	if u, ok := e.(*ast.UnaryExpr); ok && u.Op == token.NOT {
+		return isZeroTest(g, u.X, !negated)
+	}
+	if c, ok := e.(*ast.CallExpr); ok && negated && len(c.Args) == 0 {
+		// !x.IsZero()
+		if se, ok := c.Fun.(*ast.SelectorExpr); ok && se.Sel.Name == "IsZero" {
+			return true
+		}
+	}
+	b, ok := e.(*ast.BinaryExpr)
+	if !ok {
+		return false
+	}
+	if !negated && b.Op == token.LOR || negated && b.Op == token.LAND {
+		// "some part is non-zero"
+		return isZeroTest(g, b.X, negated) && isZeroTest(g, b.Y, negated)
+	}
+	isZeroLit := func(x ast.Expr) bool {
+		s := g.Src(x)
+		return s == "nil" || s == "0" || s == `""`
+	}
+	op := b.Op
+	x, y := b.X, b.Y
+	if isZeroLit(x) && !isZeroLit(y) {
+		x, y = y, x
+		switch op {
+		case token.LSS:
+			op = token.GTR
+		case token.GEQ:
+			op = token.LEQ
+		}
+	}
+	if !isZeroLit(y) {
+		return false
+	}
+	_ = x
+	if !negated {
+		return op == token.NEQ || op == token.GTR
+	}
+	return op == token.EQL || op == token.LEQ
 }
 
 func copySet(m map[string]bool) map[string]bool {
@@ -707,7 +949,7 @@ func pbNames(g *Gen, n ast.Node, pbVars map[string]map[string]bool) map[string]b
 	return out
 }
 
-func unmarshalFlow(g *Gen, fr fnRef, tyName string, fields [][2]string, out map[string]map[string]bool) error {
+func unmarshalFlow(g *Gen, fr fnRef, tyName string, fields [][2]string, out map[string]map[string]bool, guards guardCollector) error {
 	fd, err := g.Func(fr.file, fr.fn)
 	if err != nil {
 		return err
@@ -726,7 +968,10 @@ func unmarshalFlow(g *Gen, fr fnRef, tyName string, fields [][2]string, out map[
 		}
 	}
 	var walk func(stmts []ast.Stmt, ctx map[string]bool)
+	var gstack []guardRec
+	mentions := func(e ast.Node) []string { return setList(pbNames(g, e, pbVars)) }
 	rec := func(f string, names map[string]bool, ctx map[string]bool) {
+		guards.note(f, gstack)
 		if len(names) > 0 {
 			for k := range names {
 				add(out, f, k)
@@ -757,6 +1002,12 @@ func unmarshalFlow(g *Gen, fr fnRef, tyName string, fields [][2]string, out map[
 		})
 	}
 	walk = func(stmts []ast.Stmt, ctx map[string]bool) {
+		blockDepth := -1
+		defer func() {
+			if blockDepth >= 0 {
+				gstack = gstack[:blockDepth]
+			}
+		}()
 		for _, s := range stmts {
 			switch x := s.(type) {
 			case *ast.AssignStmt:
@@ -819,14 +1070,22 @@ func unmarshalFlow(g *Gen, fr fnRef, tyName string, fields [][2]string, out map[
 				for k := range pbNames(g, x.Cond, pbVars) {
 					c2[k] = true
 				}
+				depth := len(gstack)
+				gstack = append(gstack, condGuards(g, x.Cond, false, mentions)...)
 				walk(x.Body.List, c2)
+				gstack = gstack[:depth]
 				if x.Else != nil {
+					gstack = append(gstack, condGuards(g, x.Cond, true, mentions)...)
 					switch e := x.Else.(type) {
 					case *ast.BlockStmt:
 						walk(e.List, c2)
 					case *ast.IfStmt:
 						walk([]ast.Stmt{e}, c2)
 					}
+					gstack = gstack[:depth]
+				} else if endsInReturn(x.Body) {
+					gstack = append(gstack, condGuards(g, x.Cond, true, mentions)...)
+					blockDepth = depth
 				}
 			case *ast.RangeStmt:
 				src := pbNames(g, x.X, pbVars)
@@ -842,9 +1101,17 @@ func unmarshalFlow(g *Gen, fr fnRef, tyName string, fields [][2]string, out map[
 						}
 					}
 				}
+				depth := len(gstack)
+				gstack = append(gstack, guardRec{text: "range " + g.Src(x.X), mentions: setList(src), zero: true})
 				walk(x.Body.List, c2)
+				gstack = gstack[:depth]
 			case *ast.ForStmt:
+				depth := len(gstack)
+				if x.Cond != nil {
+					gstack = append(gstack, guardRec{text: "for " + g.Src(x.Cond), mentions: mentions(x.Cond), zero: true})
+				}
 				walk(x.Body.List, ctx)
+				gstack = gstack[:depth]
 			case *ast.BlockStmt:
 				walk(x.List, ctx)
 			case *ast.ReturnStmt:
@@ -875,7 +1142,7 @@ func isAlloc(e ast.Expr) bool {
 
 // ---- clone ------------------------------------------------------------------------------
 
-func cloneFlow(g *Gen, fr fnRef, fields [][2]string, out map[string]string) error {
+func cloneFlow(g *Gen, fr fnRef, fields [][2]string, out map[string]string, guards guardCollector) error {
 	fd, err := g.Func(fr.file, fr.fn)
 	if err != nil {
 		return err
@@ -924,6 +1191,8 @@ func cloneFlow(g *Gen, fr fnRef, fields [][2]string, out map[string]string) erro
 		return nil
 	}
 	after := false
+	var gstack []guardRec
+	mentions := func(e ast.Node) []string { return setList(recvFieldsIn(g, e, recv, nil)) }
 	var walk func(stmts []ast.Stmt, top bool)
 	walk = func(stmts []ast.Stmt, top bool) {
 		for _, s := range stmts {
@@ -934,6 +1203,7 @@ func cloneFlow(g *Gen, fr fnRef, fields [][2]string, out map[string]string) erro
 					if f == "" {
 						continue
 					}
+					guards.note(f, gstack)
 					mode := "deep"
 					if i < len(x.Rhs) && g.Src(x.Rhs[i]) == recv+"."+f {
 						mode = "copy"
@@ -953,14 +1223,25 @@ func cloneFlow(g *Gen, fr fnRef, fields [][2]string, out map[string]string) erro
 						hasRet = true
 					}
 				}
+				depth := len(gstack)
+				gstack = append(gstack, condGuards(g, x.Cond, false, mentions)...)
 				walk(x.Body.List, false)
+				gstack = gstack[:depth]
 				if top && hasRet {
 					after = true
 				}
 			case *ast.RangeStmt:
+				depth := len(gstack)
+				gstack = append(gstack, guardRec{text: "range " + g.Src(x.X), mentions: mentions(x.X), zero: true})
 				walk(x.Body.List, false)
+				gstack = gstack[:depth]
 			case *ast.ForStmt:
+				depth := len(gstack)
+				if x.Cond != nil {
+					gstack = append(gstack, guardRec{text: "for " + g.Src(x.Cond), mentions: mentions(x.Cond), zero: true})
+				}
 				walk(x.Body.List, false)
+				gstack = gstack[:depth]
 			case *ast.BlockStmt:
 				walk(x.List, false)
 			}
